@@ -947,11 +947,11 @@ SUBCHECKS = [
     SubCheck("state_vector_listdim", check_state_vector, lambda: _sv_case(True), nt_sv, quick=6000, thorough=100000),
     SubCheck("povm", check_povm, _povm_case, nt_povm, quick=4000, thorough=70000),
     SubCheck("ginibre_states_circulant", check_misc, _misc_case, nt_misc, quick=4000, thorough=60000, shards=8),
-    SubCheck("seed_difference", check_seed_difference, _seeddiff_case, nt_seeddiff, quick=6000, thorough=100000),
-    SubCheck("history", HISTORY.replay, machine=HISTORY, nontrivial=nt_history, quick=1000, thorough=16000),
-    SubCheck("pgm_pbm_povm", check_pgm_pbm, _ensemble_case, nt_ensemble, quick=3500, thorough=60000),
+    SubCheck("seed_difference", check_seed_difference, _seeddiff_case, nt_seeddiff, quick=8000, thorough=130000),
+    SubCheck("history", HISTORY.replay, machine=HISTORY, nontrivial=nt_history, quick=1600, thorough=26000),
+    SubCheck("pgm_pbm_povm", check_pgm_pbm, _ensemble_case, nt_ensemble, quick=4000, thorough=70000),
     SubCheck("pgm_bad_priors", check_bad_priors, _badprior_case, lambda c: f"badpriors:{c['which']}:{c['bad']}", quick=800, thorough=12000, shards=4),
-    SubCheck("pgm_bounds", check_pgm_bounds, lambda: _ensemble_case(dmax=4, nmax=5), nt_ensemble, quick=800, thorough=14000, case_timeout=30),
+    SubCheck("pgm_bounds", check_pgm_bounds, lambda: _ensemble_case(dmax=4, nmax=5), nt_ensemble, quick=1200, thorough=20000, case_timeout=30),
     SubCheck("measure", check_measure, _measure_case, nt_measure, quick=8000, thorough=140000),
     SubCheck("is_povm", check_is_povm, _ispovm_case, nt_ispovm, quick=3000, thorough=50000, shards=8),
 ]
